@@ -24,7 +24,8 @@ def handleSetCookie (l : Line) : List Verdict :=
       | none => [s!"unexpected cookie {cls}"]
       | some o =>
         let m := if isClear then clearCookie "n" o else makeCookie "n" "v" o
-        cmp "Domain" domain (trimDot m.domain) ++   -- net/http serialises Domain without a leading dot cmp "Path" path m.path ++ cmp "Secure" secure m.secure ++ cmp "HttpOnly" httponly m.httpOnly ++
+        -- net/http serialises Domain without a leading dot
+        cmp "Domain" domain (trimDot m.domain) ++ cmp "Path" path m.path ++ cmp "Secure" secure m.secure ++ cmp "HttpOnly" httponly m.httpOnly ++
         cmp "SameSite" samesite (match m.sameSite with | .lax => "lax" | .strict => "strict" | .none => "none" | .default => "default") ++
         (if isClear then cmp "Expires in the past" expirespast true else (if cls == "logincount" then [] else cmp "Max-Age" maxage 0))
     let sensitive := cls == "session" || cls == "login" || cls == "logout"
@@ -33,7 +34,9 @@ def handleSetCookie (l : Line) : List Verdict :=
       (if sensitive && !secure && cfg.secure then [("C14.attr.secure", s!"{cls} cookie without Secure although cookie.secure is on")] else []) ++
       (if sensitive && samesite == "none" && !(cfg.sso && cfg.sameSite == .none) then [("C14.attr.samesite", s!"{cls} cookie with SameSite=None although not configured")] else []) ++
       (if cls == "session" && !cfg.sso && !(domain == "" && path == (if ipath == "" then "/" else ipath)) then [("C14.scope.path", s!"session cookie scoped to domain '{domain}' path '{path}', ingress path '{ipath}'")] else []) ++
-      (if cls == "session" && cfg.sso && !(domain == trimDot cfg.ssoDomain && path == "/") then [("C14.scope.domain", s!"SSO session cookie scoped to domain '{domain}' path '{path}'")] else [])
+      (if cls == "session" && cfg.sso && !(domain == trimDot cfg.ssoDomain && path == "/") then [("C14.scope.domain", s!"SSO session cookie scoped to domain '{domain}' path '{path}'"),
+                                                                                                      ("C16.cookie_domain", s!"the SSO server scopes its session cookie to domain '{domain}' path '{path}' instead of the SSO domain '{trimDot cfg.ssoDomain}'")] else []) ++
+      (if cfg.sso && (cls == "login" || cls == "logout" || cls == "retry") && domain != trimDot cfg.ssoDomain then [("C16.cookie_domain", s!"the SSO server scopes its {cls} cookie to domain '{domain}'")] else [])
     pure (verdictsOf diffs viol)
   r.getD [Verdict.bad "setcookie"]
 
